@@ -159,6 +159,15 @@ def family_result(cfgname, select=None, tag=None):
     return out
 
 
+def model_check(res, cfgname):
+    """Design check only (e.g. small-modulus instances whose scripts do not apply to the code)."""
+    meta, _ = generate(cfgname)
+    res.states += meta["states"]
+    res.transitions += meta["transitions"]
+    res.legs.append({"family": cfgname, "tlc_states": meta["states"], "tlc_transitions": meta["transitions"],
+                     "design_check_only": True})
+
+
 def run_family(res, cfgname, select=None, tag=None):
     out = family_result(cfgname, select, tag)
     res.states += out["tlc_states"]
